@@ -35,6 +35,7 @@ PROP_MODULES = {
     "C13": ["c13", "c11"],
     "C06": ["c06"],
     "C05": ["c05"],
+    "C09": ["c03", "c09"],
 }
 
 
